@@ -36,7 +36,16 @@ func init() {
 				}
 			case 1: // close pairs below 80 degrees: the "fast" distance must agree
 				a[1] = c.rng.Float64()*158 - 79
-				b = orb.Point{a[0] + (c.rng.Float64()-0.5)*0.1, a[1] + (c.rng.Float64()-0.5)*0.1}
+				// separations of every magnitude from a few kilometres down to under a millimetre (1e-1 .. 1e-8 degree),
+				// also purely along a parallel or a meridian
+				sc := math.Pow(10, -1-c.rng.Float64()*7)
+				b = orb.Point{a[0] + (c.rng.Float64()-0.5)*sc, a[1] + (c.rng.Float64()-0.5)*sc}
+				switch c.rng.Intn(4) {
+				case 0:
+					b[1] = a[1]
+				case 1:
+					b[0] = a[0]
+				}
 			case 2: // gridded
 				a = orb.Point{float64(c.rng.Intn(361) - 180), float64(c.rng.Intn(179) - 89)}
 				b = orb.Point{float64(c.rng.Intn(361) - 180), float64(c.rng.Intn(179) - 89)}
